@@ -20,6 +20,7 @@ EXPLANATION = (
     "The time-matching tolerance is c/total_duration with 0 < c <= 0.5 (half a step: two consecutive solver times never match one requested time). QutipState.probabilities squares ket amplitudes and does not square "
     "the diagonal of a density matrix; QutipOperator.expect returns qutip.expect(op, state) whole (no real/imaginary/absolute part: operators need not be Hermitian). "
     "NOT decided: the numeric values of the observables (runtime)."
+    ' Round 4 (added): a bra handed to QutipState is stored as its adjoint (.dag()); QutipState.overlap uses the squared modulus only under a test that both states are kets.'
 )
 ASSUMPTIONS = ["the truth table is evaluated over the three atoms of the path condition of the storing call, read off the symbolic normal form (pstatic/sym.py)"]
 
